@@ -1,11 +1,11 @@
 package main
 
 import (
-	"sort"
 	"fmt"
 	"go/constant"
 	"go/token"
 	"go/types"
+	"sort"
 	"strings"
 
 	"golang.org/x/tools/go/ssa"
@@ -16,9 +16,9 @@ import (
 
 func init() {
 	register(&Check{
-		ID:  "C27",
-		Run: runC27,
-		Explanation: "Decides where a positive verdict can come from and what it is conditioned on: (R1 who-may-write) SignatureStatusValid is stored into SignatureValidationResult.Status only in sign.finalizeLocalSignatureResult and model.False into DocModified only in sign.markDocumentUnmodified; (R2 evidence gates) every store DigestVerified=true and every markDocumentUnmodified call in the three handlers (pkcs7, pkcs1, document timestamp) lies on the success edge of that handler's digest comparison, every SignatureAuthenticated=true on the success edge of its signature verification; applyP7DigestEvidence returns true only on the err==nil edge; in verifyP7Digest every nil-error return passes the success edge of pkcs7.VerifyMessageDigestDetached or VerifyMessageDigestEmbedded; in pkcs7.checkSignature every return that can be nil has attempted VerifyMessageDigestDetached whenever signed attributes are present (its mismatch is carried into the result) — the message-digest binding cannot be skipped by a flag; finalizeLocalSignatureResult stores Valid only after assessment.complete() was true, and complete() reads DigestVerified and SignatureAuthenticated; (R3 what is hashed) sign.signedData returns bytes only after validateByteRange and validateContentsGap succeeded and the bytes come from bytesForByteRange on the same array; bytesForByteRange copies exactly (values[0],values[1]) and (values[2],values[3]). (R4) sign.contentsGapMatches compares the whole excluded gap: the compared range is gap[1:len(gap)-1] (high bound from len(gap), not from a search inside the gap) and gap[len(gap)-1] is tested — a matched prefix would leave unsigned, unchecked bytes in the gap (signature wrapping). NOT decided: hash/PKCS#7/RSA arithmetic and ASN.1 parsing, exhaustive byte flips.",
+		ID:          "C27",
+		Run:         runC27,
+		Explanation: "Decides where a positive verdict can come from and what it is conditioned on: (R1 who-may-write) SignatureStatusValid is stored into SignatureValidationResult.Status only in sign.finalizeLocalSignatureResult and model.False into DocModified only in sign.markDocumentUnmodified; (R2 evidence gates) every store DigestVerified=true and every markDocumentUnmodified call in the three handlers (pkcs7, pkcs1, document timestamp) lies on the success edge of that handler's digest comparison, every SignatureAuthenticated=true on the success edge of its signature verification; applyP7DigestEvidence returns true only on the err==nil edge; in verifyP7Digest every nil-error return passes the success edge of pkcs7.VerifyMessageDigestDetached or VerifyMessageDigestEmbedded; in pkcs7.checkSignature every return that can be nil has attempted VerifyMessageDigestDetached whenever signed attributes are present (its mismatch is carried into the result) — the message-digest binding cannot be skipped by a flag; finalizeLocalSignatureResult stores Valid only after assessment.complete() was true, and complete() reads DigestVerified and SignatureAuthenticated; (R3 what is hashed) sign.signedData returns bytes only after validateByteRange and validateContentsGap succeeded and the bytes come from bytesForByteRange on the same array; bytesForByteRange copies exactly (values[0],values[1]) and (values[2],values[3]). (R4) sign.contentsGapMatches compares the whole excluded gap: the compared range is gap[1:len(gap)-1] (high bound from len(gap), not from a search inside the gap) and gap[len(gap)-1] is tested — a matched prefix would leave unsigned, unchecked bytes in the gap (signature wrapping). (R2, extended) markDocumentUnmodified in the PKCS#7 and document-timestamp handlers needs the digest gate AND the signature gate (an unauthenticated messageDigest attribute is no evidence; an imprint that could not be computed is not a matching one); (R3, extended) the signed ranges are read by signedData only. NOT decided: hash/PKCS#7/RSA arithmetic and ASN.1 parsing, exhaustive byte flips.",
 		Rules: []string{
 			"C27.R1 WMC: positive verdict stores only in two functions",
 			"C27.R2 MPT: verdict flags gated on digest comparison and signature verification success",
@@ -30,14 +30,15 @@ func init() {
 		Note:        "Partial: evidence plumbing, not cryptography.",
 	})
 	register(&Check{
-		ID:  "C28",
-		Run: runC28,
-		Explanation: "Decides the boundary gates: (R1) in validateSignature and validateURSignature the handler call is reached only on the true edge of recordSignedRevisionBoundaryEvidence and every return after the handler succeeded passes applyHistoricalRevisionReporting; (R2) recordSignedRevisionBoundaryEvidence returns true for a current-revision signature only on signedRevisionEnd == currentFileSize, the evidence is built from arr[2]+arr[3] and ctx.Read.FileSize, and — sibling cross-check by concrete evaluation over increment in {0..3} x documentTimestamp in {false,true} — whenever applyHistoricalRevisionReporting would NOT downgrade a positive result (increment <= 0 or a document timestamp), collectSignedRevisionBoundaryEvidence marks the signature as currentRevision, so the strict end-of-file equality applies: no signature type/increment combination escapes both guards; (R3) validateByteRange rejects values[0] != 0 and end1 > values[2]; validateContentsGap returns nil only after contentsGapMatches returned true on bytes copied from [end1, values[2]); contentsGapMatches can leave its scan loop early only by returning false and otherwise returns i == len(contents) (no break that accepts a prefix match); signedData calls both validators before reading. (R4) the strict ByteRange parser sign.byteRangeValues (and the helpers it calls) asserts elements to types.Integer only, the kind the revision-boundary check reads (that check skips what it cannot read and relies on the strict parser to reject it); (R5) every value stored into an increment field (URSignatureIncrement, Incr …) is an xref-section index handed on unchanged (constant, parameter, field load, or the return of a function with that property), never the result of arithmetic: a negative increment is neither current (== 0) nor historical (> 0) and skips both protections. NOT decided: arithmetic of offsets beyond the comparisons named, xref/incremental-update parsing that computes `increment`.",
+		ID:          "C28",
+		Run:         runC28,
+		Explanation: "Decides the boundary gates: (R1) in validateSignature and validateURSignature the handler call is reached only on the true edge of recordSignedRevisionBoundaryEvidence and every return after the handler succeeded passes applyHistoricalRevisionReporting; (R2) recordSignedRevisionBoundaryEvidence returns true for a current-revision signature only on signedRevisionEnd == currentFileSize, the evidence is built from arr[2]+arr[3] and ctx.Read.FileSize, and — sibling cross-check by concrete evaluation over increment in {0..3} x documentTimestamp in {false,true} — whenever applyHistoricalRevisionReporting would NOT downgrade a positive result (increment <= 0 or a document timestamp), collectSignedRevisionBoundaryEvidence marks the signature as currentRevision, so the strict end-of-file equality applies: no signature type/increment combination escapes both guards; (R3) validateByteRange rejects values[0] != 0 and end1 > values[2]; validateContentsGap returns nil only after contentsGapMatches returned true on bytes copied from [end1, values[2]); contentsGapMatches can leave its scan loop early only by returning false and otherwise returns i == len(contents) (no break that accepts a prefix match); signedData calls both validators before reading. (R4) the strict ByteRange parser sign.byteRangeValues (and the helpers it calls) asserts elements to types.Integer only, the kind the revision-boundary check reads (that check skips what it cannot read and relies on the strict parser to reject it); (R5) every value stored into an increment field (URSignatureIncrement, Incr …) is an xref-section index handed on unchanged (constant, parameter, field load, or the return of a function with that property), never the result of arithmetic: a negative increment is neither current (== 0) nor historical (> 0) and skips both protections. (R6) in applyHistoricalRevisionReporting every path from the first test of DocModified / Reason to the return has each of the two fields overwritten or just seen not to hold its positive value (a first-match-wins switch withdraws only one); (R3, extended) sign.bytesForByteRange is called by sign.signedData only. NOT decided: arithmetic of offsets beyond the comparisons named, xref/incremental-update parsing that computes `increment`.",
 		Rules: []string{
 			"C28.R1 MPT: boundary evidence before the handler; historical downgrade after it",
 			"C28.R2 shape + sibling evaluation: strict end-of-file equality for every non-downgraded case",
 			"C28.R4 TABLE: ByteRange element kinds accepted by the strict parser = kinds read by the boundary check",
 			"C28.R5 flow: increment numbers reach validation unadjusted",
+			"C28.R6 MPT: a historical signature has both whole-document conclusions withdrawn (DocModified and Reason, independently)",
 			"C28.R3 shape: byte-range and gap validators",
 		},
 		Assumptions: []string{"ctx.Read.FileSize is the size of the file that was read", "the increment number passed by ValidateSignatures identifies the xref section"},
@@ -139,11 +140,16 @@ func runC27(c *Ctx) {
 		fn       string
 		digestOK []GenSpec
 		sigOK    []GenSpec
+		min      int
 	}
 	hs := []handler{
 		{"pkg/pdfcpu/sign.verifyP7SignerWithContentType",
 			[]GenSpec{{Fact: "digest-ok", On: Pred{Calls: []string{"pkg/pdfcpu/sign.applyP7DigestEvidence"}}, OnTrue: true}},
-			[]GenSpec{{Fact: "sig-ok", On: Pred{Calls: []string{"pkg/pdfcpu/sign.verifyP7Signature"}}}}},
+			[]GenSpec{{Fact: "sig-ok", On: Pred{Calls: []string{"pkg/pdfcpu/sign.verifyP7Signature"}}}}, 4},
+		// round 3 of seeding: the document-timestamp handler gets the same two named gates
+		{"pkg/pdfcpu/sign.authenticateDTSEvidence",
+			[]GenSpec{{Fact: "digest-ok", On: Pred{Calls: []string{"pkg/pdfcpu/sign.applyDTSDigestEvidence"}}, OnTrue: true}},
+			[]GenSpec{{Fact: "sig-ok", On: Pred{Calls: []string{"pkg/pdfcpu/pkcs7.CheckSignatureWithContentType"}}}}, 2},
 	}
 	for _, h := range hs {
 		fn := p.Func(h.fn)
@@ -156,10 +162,11 @@ func runC27(c *Ctx) {
 			Gen: append(append([]GenSpec{}, h.digestOK...), h.sigOK...),
 			Need: []NeedSpec{
 				{Fact: "digest-ok", At: Pred{Where: storeTrueTo("DigestVerified"), Desc: "DigestVerified = true"}, Why: "the digest is recorded as verified on a path where the digest comparison did not succeed"},
-				{Fact: "digest-ok", At: Pred{Calls: []string{"pkg/pdfcpu/sign.markDocumentUnmodified"}}, Why: "the document is marked unmodified on a path where the digest comparison did not succeed"},
+				{Fact: "digest-ok", At: Pred{Calls: []string{"pkg/pdfcpu/sign.markDocumentUnmodified"}}, Why: "the document is marked unmodified on a path where the digest comparison did not succeed (an imprint that could not be computed is not a matching imprint)"},
+				{Fact: "sig-ok", At: Pred{Calls: []string{"pkg/pdfcpu/sign.markDocumentUnmodified"}}, Why: "the document is marked unmodified on a path where the signature over the signed attributes was not verified: the messageDigest attribute is then unauthenticated and an attacker who rewrites it (and makes verification fail as 'unsupported') gets DocModified = false for tampered bytes"},
 				{Fact: "sig-ok", At: Pred{Where: storeTrueTo("SignatureAuthenticated"), Desc: "SignatureAuthenticated = true"}, Why: "the signature is recorded as authenticated on a path where the cryptographic verification did not succeed"},
 			},
-			Min: 3,
+			Min: h.min,
 		}, fn)
 	}
 	// generic: in the pkcs1 and dts handlers every such store / mark is dominated by the success edge of *some* verification call
@@ -218,38 +225,40 @@ func runC27(c *Ctx) {
 			r.Bad("C27.R2", hf, "anchor", "", "UNRESOLVED-ANCHOR: no evidence flag stores found in "+hf)
 		}
 	}
-	// applyP7DigestEvidence: true only when err == nil
-	if fn := p.Func("pkg/pdfcpu/sign.applyP7DigestEvidence"); fn == nil {
-		r.Bad("C27.R2", "pkg/pdfcpu/sign.applyP7DigestEvidence", "anchor", "", "UNRESOLVED-ANCHOR")
-	} else {
-		var errParam *ssa.Parameter
-		for _, prm := range fn.Params {
-			if isErrorType(prm.Type()) {
-				errParam = prm
-			}
-		}
-		bad := false
-		for _, ret := range returnsOf(fn) {
-			cst, ok := ret.Results[0].(*ssa.Const)
-			if ok && cst.Value != nil && !constant.BoolVal(cst.Value) {
-				continue
-			}
-			dom := false
-			if errParam != nil {
-				for _, e := range nilCheckEdges(errParam, true) {
-					if edgeDominates(e, ret.Block()) {
-						dom = true
-					}
+	// applyP7DigestEvidence / applyDTSDigestEvidence: true only when err == nil
+	for _, evid := range []string{"pkg/pdfcpu/sign.applyP7DigestEvidence", "pkg/pdfcpu/sign.applyDTSDigestEvidence"} {
+		if fn := p.Func(evid); fn == nil {
+			r.Bad("C27.R2", evid, "anchor", "", "UNRESOLVED-ANCHOR")
+		} else {
+			var errParam *ssa.Parameter
+			for _, prm := range fn.Params {
+				if isErrorType(prm.Type()) {
+					errParam = prm
 				}
 			}
-			if !dom {
-				bad = true
+			bad := false
+			for _, ret := range returnsOf(fn) {
+				cst, ok := ret.Results[0].(*ssa.Const)
+				if ok && cst.Value != nil && !constant.BoolVal(cst.Value) {
+					continue
+				}
+				dom := false
+				if errParam != nil {
+					for _, e := range nilCheckEdges(errParam, true) {
+						if edgeDominates(e, ret.Block()) {
+							dom = true
+						}
+					}
+				}
+				if !dom {
+					bad = true
+				}
 			}
-		}
-		if bad {
-			r.Bad("C27.R2", FuncID(fn), "true-only-if-nil", p.Pos(fn.Pos()), "applyP7DigestEvidence can return true although the digest verification returned an error")
-		} else {
-			r.OK("C27.R2", FuncID(fn), "true-only-if-nil", p.Pos(fn.Pos()), "returns true only on the err == nil edge", true)
+			if bad {
+				r.Bad("C27.R2", FuncID(fn), "true-only-if-nil", p.Pos(fn.Pos()), fn.Name()+" can return true although the digest verification returned an error")
+			} else {
+				r.OK("C27.R2", FuncID(fn), "true-only-if-nil", p.Pos(fn.Pos()), "returns true only on the err == nil edge", true)
+			}
 		}
 	}
 	RunFlowRule(c, FlowRule{
@@ -363,6 +372,7 @@ func runC27(c *Ctx) {
 			{Fact: "gap-valid", At: Pred{Calls: []string{"pkg/pdfcpu/sign.bytesForByteRange"}}, Why: "signed bytes are read before the excluded gap was shown to be exactly the /Contents value"},
 		},
 	})
+	checkSignedRangeReaders(c, "C27.R3")
 	if fn := p.Func("pkg/pdfcpu/sign.bytesForByteRange"); fn == nil {
 		r.Bad("C27.R3", "pkg/pdfcpu/sign.bytesForByteRange", "anchor", "", "UNRESOLVED-ANCHOR")
 	} else {
@@ -594,6 +604,9 @@ func runC28(c *Ctx) {
 	r.MinInst["C28.R3"] = 5
 	r.MinInst["C28.R4"] = 1
 	r.MinInst["C28.R5"] = 1
+	r.MinInst["C28.R6"] = 1
+	checkHistoricalWithdrawsBoth(c)
+	checkSignedRangeReaders(c, "C28.R3")
 	checkByteRangeKinds(c)
 	checkIncrementsUnadjusted(c)
 	// ---- R1
@@ -1249,5 +1262,131 @@ func checkIncrementsUnadjusted(c *Ctx) {
 	}
 	if n == 0 {
 		r.Bad("C28.R5", "pkg/pdfcpu", "anchor", "", "UNRESOLVED-ANCHOR: no store into an increment field found")
+	}
+}
+
+// checkSignedRangeReaders: who may read the signed ranges — only signedData, which validates range and gap first.
+func checkSignedRangeReaders(c *Ctx, rule string) {
+	p, r := c.P, c.R
+	if bf := p.Func("pkg/pdfcpu/sign.bytesForByteRange"); bf != nil {
+		for _, caller := range c.CG().In[bf] {
+			caller := caller
+			eachInstr(caller, func(_ *ssa.BasicBlock, _ int, i ssa.Instruction) {
+				call, ok := i.(*ssa.Call)
+				if !ok {
+					return
+				}
+				if callee := staticCallee(call); callee == nil || unwrapSynthetic(callee) != bf {
+					return
+				}
+				if FuncID(caller) == "pkg/pdfcpu/sign.signedData" {
+					r.OK(rule, FuncID(caller), "reads the signed ranges", p.Pos(call.Pos()), "bytesForByteRange is called by signedData (after validateByteRange and validateContentsGap)", true)
+				} else {
+					r.Bad(rule, FuncID(caller), "reads the signed ranges", p.Pos(call.Pos()), "the signed byte ranges are read directly, not through signedData: the /ByteRange and /Contents gap validation is bypassed, so a digest over the raw ranges can match although unsigned bytes hide in a widened gap — and the document is reported as not modified")
+				}
+			})
+		}
+	}
+
+}
+
+// ---------------- C28.R6 (round 3 of seeding): both whole-document conclusions are withdrawn ----------------
+
+// checkHistoricalWithdrawsBoth: for a signature in an older revision applyHistoricalRevisionReporting has to withdraw BOTH
+// whole-document conclusions the handlers can have drawn: DocModified == False and Reason == DocNotModified. On every path
+// from the first of those tests to the return, each field is either overwritten or was just seen not to hold the positive
+// value. A switch (first match wins) withdraws one and leaves "signature is valid — document has not been modified" for a
+// signature that bytes were appended after.
+func checkHistoricalWithdrawsBoth(c *Ctx) {
+	p, r := c.P, c.R
+	fid := "pkg/pdfcpu.applyHistoricalRevisionReporting"
+	fn := p.Func(fid)
+	if fn == nil {
+		r.Bad("C28.R6", fid, "anchor", "", "UNRESOLVED-ANCHOR")
+		return
+	}
+	genE := map[Edge][]string{}
+	stores := map[ssa.Instruction]string{}
+	var touch []*ssa.BasicBlock
+	fieldOf := func(v ssa.Value) string {
+		fp := fieldPath(v)
+		switch {
+		case strings.HasSuffix(fp, "DocModified"):
+			return "DocModified"
+		case strings.HasSuffix(fp, "Reason"):
+			return "Reason"
+		}
+		return ""
+	}
+	eachInstr(fn, func(b *ssa.BasicBlock, _ int, i ssa.Instruction) {
+		switch x := i.(type) {
+		case *ssa.BinOp:
+			if x.Op != token.EQL && x.Op != token.NEQ {
+				return
+			}
+			f := fieldOf(x.X)
+			other := x.Y
+			if f == "" {
+				f = fieldOf(x.Y)
+				other = x.X
+			}
+			if f == "" {
+				return
+			}
+			if _, isConst := other.(*ssa.Const); !isConst {
+				return
+			}
+			touch = append(touch, b)
+			// the edge on which the field does NOT hold the positive constant
+			for _, e := range condEdges(x, x.Op == token.NEQ) {
+				genE[e] = append(genE[e], f)
+			}
+		case *ssa.Store:
+			if f := fieldOf(x.Addr); f != "" {
+				if _, isConst := x.Val.(*ssa.Const); isConst {
+					stores[i] = f
+					touch = append(touch, b)
+				}
+			}
+		}
+	})
+	if len(touch) == 0 {
+		r.Bad("C28.R6", fid, "withdrawals", p.Pos(fn.Pos()), "UNRESOLVED-ANCHOR: no test or store of DocModified / Reason found")
+		return
+	}
+	ff := NewFactFlow(fn, func(i ssa.Instruction) []string {
+		if f, ok := stores[i]; ok {
+			return []string{f}
+		}
+		return nil
+	}, genE, nil, nil)
+	after := map[*ssa.BasicBlock]bool{}
+	for _, b := range touch {
+		after[b] = true
+		for x := range reachableBlocks(b) {
+			after[x] = true
+		}
+	}
+	n := 0
+	for _, ret := range returnsOf(fn) {
+		if !after[ret.Block()] {
+			continue // the exemption returns (current revision, document timestamp, nil result)
+		}
+		n++
+		construct := fmt.Sprintf("return#%d", n)
+		var miss []string
+		for _, f := range []string{"DocModified", "Reason"} {
+			if !ff.Holds(ret, f) {
+				miss = append(miss, f)
+			}
+		}
+		if len(miss) > 0 {
+			r.Bad("C28.R6", fid, construct, posOrFn(p, ret, fn), "a historical signature can leave this function with "+strings.Join(miss, " and ")+" still holding the whole-document conclusion (neither overwritten nor tested on this path): bytes were appended after the signed revision, yet the result says the document has not been modified")
+		} else {
+			r.OK("C28.R6", fid, construct, posOrFn(p, ret, fn), "on every path DocModified and Reason are each overwritten or were just seen not to hold the positive value", true)
+		}
+	}
+	if n == 0 {
+		r.Bad("C28.R6", fid, "withdrawals", p.Pos(fn.Pos()), "UNRESOLVED-ANCHOR: no return after the withdrawals")
 	}
 }
